@@ -365,11 +365,13 @@ func (s *verifC26Scn) op(ws []string) string {
 	return "bad-op"
 }
 
-func verifC26Scenario(t *testing.T, lines []string) (out []string) {
+func verifC26Scenario(t *testing.T, lines []string, emit func(string)) {
+	cnt := 0
+	add := func(l string) { cnt++; emit(l) }
 	defer func() {
 		if r := recover(); r != nil {
-			for len(out) < len(lines) {
-				out = append(out, fmt.Sprintf("PANIC %v", r))
+			for cnt < len(lines) {
+				add(fmt.Sprintf("PANIC %v", r))
 			}
 		}
 	}()
@@ -393,9 +395,9 @@ func verifC26Scenario(t *testing.T, lines []string) (out []string) {
 		if err := n.Run(); err != nil {
 			panic(err)
 		}
-		out = append(out, s.obs("-"))
+		add(s.obs("-"))
 		for _, l := range lines[1:] {
-			out = append(out, s.op(strings.Fields(l)))
+			add(s.op(strings.Fields(l)))
 		}
 		// tear down: release gates, let jobs finish, stop the node
 		for i := 0; i < 100; i++ {
@@ -417,7 +419,6 @@ func verifC26Scenario(t *testing.T, lines []string) (out []string) {
 		_ = n.Shutdown(context.Background())
 		synctest.Wait()
 	})
-	return out
 }
 
 func TestVerifC26(t *testing.T) {
@@ -442,18 +443,30 @@ func TestVerifC26(t *testing.T) {
 	// watchdog outside the bubble (real time): a scenario that cannot finish (a goroutine spinning on
 	// a mutex whose holder waits for virtual time) must not hang the check; the run is cut short and
 	// the check counts the missing scenarios as harness errors, never as violations.
+	var wmu sync.Mutex
 	progress := make(chan struct{}, 1)
 	go func() {
 		for {
 			select {
 			case <-progress:
-			case <-time.After(60 * time.Second):
+			case <-time.After(90 * time.Second):
+				wmu.Lock()
 				fmt.Fprintln(w, "HARNESS-TIMEOUT")
 				w.Flush()
 				os.Exit(0)
 			}
 		}
 	}()
+	emit := func(l string) {
+		wmu.Lock()
+		fmt.Fprintln(w, l)
+		w.Flush()
+		wmu.Unlock()
+		select {
+		case progress <- struct{}{}:
+		default:
+		}
+	}
 	for i := 0; i < len(lines); {
 		ws := strings.Fields(lines[i])
 		if len(ws) == 1 && ws[0] == "reset" {
@@ -461,14 +474,7 @@ func TestVerifC26(t *testing.T) {
 			for j < len(lines) && strings.TrimSpace(lines[j]) != "reset" {
 				j++
 			}
-			for _, o := range verifC26Scenario(t, lines[i:j]) {
-				fmt.Fprintln(w, o)
-			}
-			w.Flush()
-			select {
-			case progress <- struct{}{}:
-			default:
-			}
+			verifC26Scenario(t, lines[i:j], emit)
 			i = j
 		} else {
 			fmt.Fprintln(w, "bad-op")
